@@ -705,3 +705,21 @@ package proto
 //@   modifies r.pos, r.failed, r.b.Buf
 //@   ensures err == nil ==> r.failed == old(r.failed)
 //@   ensures old(r.pos) <= r.pos && r.pos <= r.end
+
+// ---------------------------------------------------------------------------
+// Tuple: a slice of columns.  Statements about "every element" are made as: a successful return
+// happens only after the loop over the elements ran to its end.
+
+//@ contract (c ColTuple) Prepare() (err) props(C01,C16)
+//@   modifies all(c)
+//@   ensures err == nil ==> L0_rangeindex + 1 >= len(c) [C01,C16] {every-element-was-visited-before-success}
+//@ loop 0 (rangeindex)
+//@   modifies all(c)
+//@   invariant -1 <= rangeindex && rangeindex < len(c)
+//@ contract (c ColTuple) EncodeState(b) props(C01)
+//@   requires b != nil
+//@   modifies b.Buf
+//@   ensures appendsOnly(b)
+//@ loop 0 (rangeindex)
+//@   modifies b.Buf
+//@   invariant -1 <= rangeindex && rangeindex < len(c) && len(b.Buf) >= old(len(b.Buf)) && forall k in 0..old(len(b.Buf)) :: b.Buf[k] == old(b.Buf[k])
